@@ -1,4 +1,5 @@
 \* C04: model checking of the round trip on every document of the universe
+\* measured: thorough universe: 42 580 documents (wide: <= 2 modules from 58 variants, <= 1 net of 6; deep: 3 modules with <= 2 nets, 4 modules with <= 1 net of arity 2..4); 212 902 states; largest intermediate value < 2^31 by CMAX = 64, RES = 128 (see Fpef.tla, Derive)
 SPECIFICATION Spec
 CONSTANTS
   UNIVERSE = "thorough"
